@@ -519,3 +519,480 @@ def expected_table(ctx, tag, world, cases, defects, tol=TOL, timeout=1500):
     if len(tab) != len(cases):
         raise tlc.MachineryError('table of expected answers has %d rows for %d cases' % (len(tab), len(cases)))
     return tab
+
+
+# ---------------------------------------------------------------------------------------------
+# comparison of observations with the model (Compose!Close in python, for the values TLC computed)
+# ---------------------------------------------------------------------------------------------
+def close(p, q, tol=TOL):
+    if abs(p[3] - q[3]) > tol:
+        return False
+    if p[3] <= tol and q[3] <= tol:
+        return True
+    m = min(p[3], q[3])
+    return all(abs(p[i] - q[i]) * m <= tol * 255 for i in range(3))
+
+
+def px_diff(obs_px, want):
+    """regions where the observed picture differs from `want` (None if equal within the tolerance)"""
+    if set(obs_px) != set(want):
+        return {'regions': (sorted(obs_px), sorted(want))}
+    d = {r: (tuple(obs_px[r]), tuple(want[r])) for r in sorted(want) if not close(obs_px[r], want[r])}
+    return d or None
+
+
+def judge(obs, exp):
+    """-> (property_ok, binding_ok, text)"""
+    if obs['status'] != 200 or not obs['px']:
+        return False, False, '; '.join(obs['notes']) or 'no picture'
+    dfull = px_diff(obs['px'], exp['full'])
+    dout = px_diff(obs['px'], exp['out'])
+    ups_ok = obs['ups'] == exp['ups']
+    notes = list(obs['notes'])
+    if dfull:
+        r = sorted(dfull)[0]
+        notes.append('region %s: answered %s, full composition %s' % ((r,) + tuple(dfull[r])) if r != 'regions'
+                     else 'regions %s instead of %s' % dfull[r])
+    if dout:
+        r = sorted(dout)[0]
+        notes.append('region %s: answered %s, model of the code %s' % ((r,) + tuple(dout[r])) if r != 'regions'
+                     else 'regions %s instead of %s' % dout[r])
+    if not ups_ok:
+        notes.append('upstream requests %s, model of the code %s' % (
+            [(','.join(u['ls']), u['tr'], u['sub']) for u in obs['ups']], [(','.join(u['ls']), u['tr'], u['sub']) for u in exp['ups']]))
+    return (not dfull and obs['flat']), (not dout and ups_ok and obs['flat'] and not obs['notes']), '; '.join(notes)
+
+
+NOTE_OF = {'fastpath_opacity': 'fast_faded', 'blend_alpha': 'blend', 'combine_clip': 'combine_mixed_clip',
+           'opaque_zero': 'prune_invisible', 'combine_range': 'combine_out_of_range'}
+
+
+def describe(names, o):
+    return 'LAYERS=%s TRANSPARENT=%s BGCOLOR=%02x%02x%02x window=%s res=%s' % (
+        ','.join(names), str(o['tr']).lower(), o['bg'][0], o['bg'][1], o['bg'][2], '+'.join(o['zones']), o['res'])
+
+
+# ---------------------------------------------------------------------------------------------
+# calibration: which of the known deviations does the code under test have
+# ---------------------------------------------------------------------------------------------
+def witnesses(world):
+    z = list(all_zones(world))
+    green = (0, 160, 80)
+    w = [('fastpath_opacity', ['o_50_x'], mk_opt(False, green, z, 'fine'), 'px'),
+         ('blend_alpha', ['o_n_x', 'r_50_x'], mk_opt(False, green, z, 'fine'), 'px'),
+         ('combine_clip', ['o_n_c', 'o_n_u2'], mk_opt(True, green, z, 'fine'), 'ups'),
+         ('opaque_zero', ['o_n_x', 'o_0_x'], mk_opt(True, green, z, 'fine'), 'ups'),
+         ('combine_range', ['ms1'], mk_opt(True, green, z, 'coarse'), 'ups')]
+    return [x for x in w if all(n in world.layers for n in x[1])]
+
+
+def calibrate(ctx, world, base):
+    ws = witnesses(world)
+    cases = [(n, o) for _, n, o, _ in ws]
+    tab_fixed = expected_table(ctx, 'cal-fixed', world, cases, [])
+    tab_found = expected_table(ctx, 'cal-found', world, cases, KNOWN_DEFECTS)
+    obs = run_real(world, cases, base, procs=1)
+    defects = []
+    for (d, names, o, field), ef, ed, ob in zip(ws, tab_fixed, tab_found, obs):
+        if field == 'ups':
+            as_fixed, as_found = ob['ups'] == ef['ups'], ob['ups'] == ed['ups']
+        else:
+            as_fixed = bool(ob['px']) and not px_diff(ob['px'], ef['out'])
+            as_found = bool(ob['px']) and not px_diff(ob['px'], ed['out'])
+        if as_fixed == as_found:
+            ctx.log('calibration: witness for %s (%s) matches %s model variant; assuming the repaired behaviour' % (
+                d, describe(names, o), 'both' if as_fixed else 'neither'))
+        elif as_found:
+            defects.append(d)
+    return defects
+
+
+# ---------------------------------------------------------------------------------------------
+# spec -> code: the table of expected answers against the real service
+# ---------------------------------------------------------------------------------------------
+def tables_parallel(ctx, tag, world, cases, defects, parts=8):
+    from concurrent.futures import ThreadPoolExecutor
+    if len(cases) < 2000:
+        return expected_table(ctx, tag, world, cases, defects)
+    n = (len(cases) + parts - 1) // parts
+    chunks = [cases[i:i + n] for i in range(0, len(cases), n)]
+    with ThreadPoolExecutor(len(chunks)) as ex:
+        res = list(ex.map(lambda a: expected_table(ctx, '%s-%d' % (tag, a[0]), world, a[1], defects), enumerate(chunks)))
+    return [x for t in res for x in t]
+
+
+class Findings(object):
+    """collects failing cases per cause; reports the smallest one per cause"""
+
+    def __init__(self, ctx, world, defects):
+        self.ctx, self.world, self.defects = ctx, world, defects
+        self.by_cause = {}
+        self.multi = []
+
+    def add(self, cause, names, o, text, kind='picture'):
+        k = (kind, cause)
+        size = (len(names), len(o['zones']), o['res'] != 'fine')
+        cur = self.by_cause.get(k)
+        if cur is None or size < cur[0]:
+            self.by_cause[k] = (size, names, o, text, (cur[4] if cur else 0) + 1)
+        else:
+            self.by_cause[k] = cur[:4] + (cur[4] + 1,)
+
+    def report(self):
+        for (kind, cause), (size, names, o, text, n) in sorted(self.by_cause.items()):
+            self.ctx.violation({'kind': kind, 'cause': cause},
+                               '%s: %s [%s] (%d cases of this kind; smallest shown)' % (cause, describe(names, o), text, n),
+                               {'world': self.world.to_json(), 'names': names, 'o': o, 'defects': self.defects})
+
+
+def attribute(ctx, tag, world, defects, failing, findings):
+    """failing: [(names, o, exp, text)] - cases where the real answer differs from Full and equals the model of the
+    code: name the deviation(s) responsible.  One candidate note -> that deviation; several -> the smallest set
+    of repairs that makes the model satisfy the property for the case (asked from TLC)."""
+    multi = []
+    for names, o, exp, text in failing:
+        cands = [d for d in defects if NOTE_OF[d] in exp['path']]
+        if len(cands) == 1:
+            findings.add(cands[0], names, o, text)
+        elif not cands:
+            findings.add('unattributed', names, o, text)
+        else:
+            multi.append((names, o, exp, text, cands))
+    multi.sort(key=lambda m: (len(m[0]), len(m[1]['zones'])))
+    todo = multi[:400]
+    rest = multi[400:]
+    k = 1
+    while todo and k <= len(defects):
+        nxt = []
+        variants = [c for c in itertools.combinations(defects, k)]
+        tabs = {}
+        for v in variants:
+            sel = [m for m in todo if set(v) <= set(m[4])]
+            if sel:
+                tab = expected_table(ctx, '%s-att-%s' % (tag, '-'.join(x[:6] for x in v)), world, [(m[0], m[1]) for m in sel],
+                                     [d for d in defects if d not in v])
+                for m, e in zip(sel, tab):
+                    tabs[(id(m), v)] = e['ok']
+        for m in todo:
+            hit = [v for v in variants if tabs.get((id(m), v))]
+            if hit:
+                for v in (hit if k == 1 else hit[:1]):
+                    findings.add('+'.join(v), m[0], m[1], m[3])
+            else:
+                nxt.append(m)
+        todo = nxt
+        k += 1
+    for m in todo:
+        findings.add('unattributed', m[0], m[1], m[3])
+    if rest:
+        ctx.log('%d more failing cases with several candidate causes were explained by the model but not attributed one by one' % len(rest))
+
+
+def compare_cases(ctx, tag, world, defects, cases, tab, obs, findings):
+    failing = []
+    nbad = 0
+    for (names, o), exp, ob in zip(cases, tab, obs):
+        ctx.count((tag, tuple(names), opt_key(o)))
+        prop_ok, bind_ok, text = judge(ob, exp)
+        if prop_ok and bind_ok:
+            if not exp['ok']:
+                raise tlc.MachineryError('python and TLC disagree on Close for %s' % describe(names, o))
+            continue
+        nbad += 1
+        if not prop_ok and bind_ok:
+            if exp['ok']:
+                raise tlc.MachineryError('python and TLC disagree on Close for %s: %s' % (describe(names, o), text))
+            failing.append((names, o, exp, text))
+        elif not prop_ok:
+            shortcut = '+'.join(sorted(set(exp['path']) & {'prune', 'combine', 'fast', 'sub', 'blank', 'skip'})) or 'none'
+            findings.add('answer differs from the full composition and from the model of the code (model path: %s)' % shortcut,
+                         names, o, text)
+        else:
+            what = 'upstream-log' if ob['ups'] != exp['ups'] else 'picture'
+            findings.add('answer is the full composition but not what the model of the code says (%s)' % what, names, o, text,
+                         kind='model-divergence')
+    attribute(ctx, tag, world, defects, failing, findings)
+    return nbad
+
+
+# ---------------------------------------------------------------------------------------------
+# code -> spec: random worlds, recorded requests, trace validation
+# ---------------------------------------------------------------------------------------------
+def random_world(rng, k, tier):
+    cov_type = 'polygon' if rng.random() < 0.75 else 'bbox'
+    nsrc = rng.randint(8, 12)
+    ops = [NONE, NONE, NONE, 0, 25, 50, 75, 100]
+    srcs = []
+    for i in range(nsrc):
+        kind = rng.choice(['opq', 'opq', 'rgba', 'rgba', 'pal', 'key'])
+        cov = rng.choice(['none', 'none', 'P', 'P'])
+        col = (rng.randrange(0, 221), rng.randrange(0, 221), rng.randrange(0, 221))
+        srcs.append(mk_source('s%d' % i, kind, rng.choice(ops), cov, cov != 'none' and rng.random() < 0.5,
+                              rng.choice([URL1, URL1, URL2]), rng.choice(['all', 'all', 'all', 'fine']), col))
+    layers = {}
+    pool = list(srcs)
+    rng.shuffle(pool)
+    n = 0
+    while pool:
+        m = 1 if rng.random() < 0.7 else rng.randint(2, 3)
+        mine, pool = pool[:m], pool[m:]
+        name = 'L%d' % n
+        n += 1
+        layers[name] = {'name': name, 'srcs': mine, 'rng': 'fine' if rng.random() < 0.15 else 'none'}
+    return World('random-%d' % k, layers, cov_type)
+
+
+def random_requests(rng, world, n):
+    names = sorted(world.layers)
+    wins = sorted(world.windows)
+    cases = []
+    for _ in range(n):
+        k = min(len(names), rng.choice([1, 1, 2, 2, 3, 3, 4, 5, 6]))
+        st = rng.sample(names, k)
+        tr = rng.random() < 0.5
+        bg = rng.choice([(255, 255, 255), (0, 0, 0), (rng.randrange(256), rng.randrange(256), rng.randrange(256))])
+        cases.append((st, mk_opt(tr, bg, rng.choice(wins), rng.choice(['fine', 'fine', 'coarse']))))
+    return cases
+
+
+def validate_trace(ctx, tag, events, defects, timeout=1500):
+    d = ctx.sub('trace-' + tag)
+    tf = os.path.join(d, 'batch.json')
+    with open(tf, 'w') as f:
+        json.dump(events, f)
+    c = dict(Cat={'unused': 0}, Reduced=set(), ShallowLen=0, MaxStack=8, Opts=set(), AllZones=set(), Defects=set(defects), Tol=TOL)
+    mp, cp = tlc.write_mc(d, 'Trace_Compose', 'MC_Trace', c, spec='TraceSpec', post='TraceAccepted')
+    r = tlc.run(mp, cp, d, workers=1, coverage=False, env={'TRACE_FILE': tf}, timeout=timeout, heap='3g')
+    acc = tlc.find_prints(r.out, 'accepted')
+    bad = tlc.find_prints(r.out, 'obsbadset')
+    if not acc or not bad:
+        raise tlc.MachineryError('trace validation: no verdict from TLC\n' + r.out[-2000:])
+    accepted = set(acc[-1][1])
+    obsbad = set(bad[-1][1])
+    paths = {}
+    for p in tlc.find_prints(r.out, 'obsbad'):
+        if len(p) == 3 and isinstance(p[1], int):
+            paths[p[1]] = sorted(str(x) for x in p[2])
+    return r, accepted, obsbad, paths
+
+
+def trace_direction(ctx, defects, base, nworlds, nreq, findings_by_world):
+    events, meta = [], []
+    for k in range(nworlds):
+        w = random_world(ctx.rng, k, ctx.tier)
+        cases = random_requests(ctx.rng, w, nreq)
+        obs = run_real(w, cases, base, procs=1)
+        for (names, o), ob in zip(cases, obs):
+            ev = {'stack': [w.layers[n] for n in names], 'o': o,
+                  'obs': {'status': ob['status'], 'px': ob['px'], 'flat': ob['flat'] and not ob['notes'], 'ups': ob['ups']}}
+            events.append(ev)
+            meta.append((w, names, o, ob))
+    r, accepted, obsbad, paths = validate_trace(ctx, 'random', events, defects)
+    ctx.cov['traces_validated_against_impl'] += len(events)
+    ctx.cov['states'] += r.distinct
+    ctx.cov['transitions'] += r.generated
+    nrej = 0
+    for i, (w, names, o, ob) in enumerate(meta, 1):
+        ctx.count(('trace', w.name, tuple(names), opt_key(o)))
+        f = findings_by_world.setdefault(w.name, Findings(ctx, w, defects))
+        obs_txt = '; '.join(ob['notes']) or 'picture %s' % {k: tuple(v) for k, v in sorted(ob['px'].items())[:3]}
+        if i in obsbad and i in accepted:
+            cands = [d for d in defects if NOTE_OF[d] in paths.get(i, [])]
+            f.add('+'.join(cands) if cands else 'unattributed', names, o, 'recorded request violates the property; ' + obs_txt)
+        elif i in obsbad:
+            nrej += 1
+            f.add('recorded answer differs from the full composition and from the model of the code', names, o, obs_txt)
+        elif i not in accepted:
+            nrej += 1
+            f.add('recorded answer is the full composition but not a behaviour of the model of the code', names, o,
+                  obs_txt + ' upstream %s' % [(','.join(u['ls']), u['tr'], u['sub']) for u in ob['ups']], kind='model-divergence')
+    ctx.sample({'kind': 'request recorded from a random world, validated by Trace_Compose',
+                'request': describe(meta[0][1], meta[0][2]), 'upstream': meta[0][3]['ups'],
+                'picture': {k: v for k, v in sorted(meta[0][3]['px'].items())[:3]}})
+    ctx.log('trace validation: %d recorded requests from %d random worlds, %d accepted, %d violate the property, %d rejected' % (
+        len(events), nworlds, len(accepted), len(obsbad), nrej))
+    return len(events)
+
+
+# ---------------------------------------------------------------------------------------------
+# sanity of the harness itself
+# ---------------------------------------------------------------------------------------------
+def check_geometry(world):
+    """the zone sets that name the windows are what the real coverage classes compute"""
+    from mapproxy.srs import SRS
+    from mapproxy.util.coverage import coverage
+    if world.cov_type == 'polygon':
+        import shapely.geometry
+        cov = coverage(shapely.geometry.Polygon([(0, 0), (80, 0), (80, 40), (40, 40), (40, 80), (0, 80)]), SRS(3857))
+    else:
+        cov = coverage([0, 0, 80, 80], SRS(3857))
+    for zones, bbox in world.windows.items():
+        facts = (cov.contains(bbox, SRS(3857)), cov.intersects(bbox, SRS(3857)), cov.extent.contains(
+            __import__('mapproxy.layer', fromlist=['MapExtent']).MapExtent(bbox, SRS(3857))))
+        want = (set(zones) == {'in'}, 'in' in zones, 'out' not in zones)
+        if facts != want:
+            raise tlc.MachineryError('window %s of world %s: coverage contains/intersects/extent-contains = %s, zones say %s' % (
+                bbox, world.name, facts, want))
+        seen = set()
+        for i in range(int(bbox[0]), int(bbox[2])):
+            for j in range(int(bbox[1]), int(bbox[3])):
+                seen.add(world.zone(i + 0.5, j + 0.5))
+        if seen != set(zones):
+            raise tlc.MachineryError('window %s of world %s has zones %s, named %s' % (bbox, world.name, sorted(seen), zones))
+
+
+def check_arithmetic(ctx):
+    """Compose!Over8 (= over8 here) is PIL's alpha_composite"""
+    from PIL import Image
+    bad = 0
+    for _ in range(400):
+        d = tuple(ctx.rng.randrange(256) for _ in range(4))
+        s = tuple(ctx.rng.randrange(256) for _ in range(4))
+        r = Image.alpha_composite(Image.new('RGBA', (1, 1), d), Image.new('RGBA', (1, 1), s)).getpixel((0, 0))
+        if tuple(r) != over8(d, s):
+            bad += 1
+    if bad:
+        ctx.assumptions.append('alpha_composite of the installed Pillow differs from the transcription in %d of 400 samples '
+                               '(covered by the tolerance)' % bad)
+
+
+# ---------------------------------------------------------------------------------------------
+# run / replay
+# ---------------------------------------------------------------------------------------------
+def exhaustive_world(ctx, world, defects, base, shallow, maxstack, machine_shallow, machine_max, procs):
+    """(M) + (R) for one world"""
+    opts = opts_for(world, ctx.tier)
+    findings = Findings(ctx, world, defects)
+    cases = list(enumerate_cases(world, opts, shallow, maxstack))
+    # real runs start first (worker processes), TLC tables are computed meanwhile
+    mpc = multiprocessing.get_context('fork')
+    n = max(20, min(300, len(cases) // (procs * 6) + 1))
+    chunks = [cases[i:i + n] for i in range(0, len(cases), n)]
+    pool = mpc.Pool(procs, initializer=_worker_init, initargs=(world.to_json(), base))
+    try:
+        pending = pool.map_async(_worker_run, chunks)
+        pool.close()
+        # (M) the machine, exhaustively
+        r = check_model(ctx, world.name, world, opts, defects, machine_shallow, machine_max,
+                        invariants=['TypeOK', 'LogOK'] + ([] if defects else ['PictureOK']))
+        ctx.log('Compose %s (Defects=%s, stacks <= %d over %d layers, <= %d over %d): %r' % (
+            world.name, sorted(defects), machine_shallow, len(world.layers), machine_max, len(world.reduced), r))
+        if r.violated:
+            a, s = r.trace[-1]
+            st = s['st']
+            findings.add('model invariant %s' % r.violated, [str(L['name']) for L in st['stack']],
+                         mk_opt(st['o']['tr'], st['o']['bg'], [str(z) for z in st['o']['zones']], str(st['o']['res'])),
+                         'TLC counterexample of %s on the model of the code' % r.violated, kind='model')
+        elif not r.ok:
+            raise tlc.MachineryError('Compose.tla %s: %r\n%s' % (world.name, r, r.out[-1500:]))
+        else:
+            vacuity_guard(world.name, r, ACTIONS)
+            ctx.add_tlc('Compose/' + world.name, r)
+        tab = tables_parallel(ctx, world.name, world, cases, defects)
+        obs = [x for ch in pending.get(3000) for x in ch]
+        pool.join()
+    finally:
+        pool.terminate()
+    ctx.cov['replayed_behaviours'] += len(cases)
+    ctx.cov['replayed_steps'] += sum(len(t['ups']) + len(c[0]) + 2 for c, t in zip(cases, tab))
+    model_bad = sum(1 for t in tab if not t['ok'])
+    nbad = compare_cases(ctx, world.name, world, defects, cases, tab, obs, findings)
+    ctx.log('%s: %d cases requested from the real service; model of the code violates the property in %d, real answers '
+            'deviate (from Full or from the model) in %d' % (world.name, len(cases), model_bad, nbad))
+    for c, t, ob in zip(cases, tab, obs):
+        if 'combine' in t['path'] and 'prune' in t['path']:
+            ctx.sample({'kind': 'TLC case executed on the real WMS service', 'request': describe(*c), 'model path': t['path'],
+                        'upstream (model = real)': t['ups'], 'picture (model)': {k: v for k, v in sorted(t['out'].items())[:3]},
+                        'picture (real)': {k: v for k, v in sorted(ob['px'].items())[:3]}})
+            break
+    findings.report()
+    return len(cases)
+
+
+def sensitivity_of_model(ctx, world):
+    """each hypothetical deviation makes PictureOK fail on the model (the invariant is not vacuous)"""
+    z = all_zones(world)
+    opts = [mk_opt(True, (255, 255, 255), z, 'fine'), mk_opt(False, (0, 160, 80), z, 'fine'), mk_opt(False, (0, 160, 80), ('in',), 'fine')]
+    from concurrent.futures import ThreadPoolExecutor
+
+    def one(d):
+        return d, check_model(ctx, 'hyp-' + d, world, opts, [d], 1, 3, invariants=['PictureOK'], workers=2, timeout=600)
+    with ThreadPoolExecutor(len(HYPOTHETICAL)) as ex:
+        for d, r in ex.map(one, HYPOTHETICAL):
+            if r.violated != 'PictureOK':
+                raise tlc.MachineryError('PictureOK does not fail on the model with the hypothetical deviation %s: %r' % (d, r))
+
+
+def run(ctx):
+    thorough = ctx.tier == 'thorough'
+    tlc.sany(SPEC)
+    base = ctx.sub('real')
+    procs = 12 if thorough else 8
+    check_arithmetic(ctx)
+    world = base_world(ctx.tier)
+    check_geometry(world)
+    defects = calibrate(ctx, world, base)
+    ctx.log('deviations of the code under test from the repaired model (calibrated on witness requests): %s' % (defects or 'none'))
+
+    # RunOK: the pure step functions (tables, trace spec) and the actions are one transcription; hypothetical deviations
+    small_opts = opts_for(world, 'quick')[:6]
+    r = check_model(ctx, 'runok', world, small_opts, defects, 1, 2, invariants=['TypeOK', 'RunOK'], workers=4)
+    if not r.ok:
+        raise tlc.MachineryError('Compose.tla RunOK: %r\n%s' % (r, r.out[-1500:]))
+    ctx.add_tlc('Compose/RunOK', r)
+    sensitivity_of_model(ctx, world)
+
+    n = 0
+    if thorough:
+        n += exhaustive_world(ctx, world, defects, base, 2, 4, 2, 4, procs)
+        wb = base_world(ctx.tier, 'bbox')
+        check_geometry(wb)
+        n += exhaustive_world(ctx, wb, defects, base, 2, 3, 2, 3, procs)
+    else:
+        n += exhaustive_world(ctx, world, defects, base, 2, 3, 1, 3, procs)
+        wb = base_world(ctx.tier, 'bbox')
+        check_geometry(wb)
+        n += exhaustive_world(ctx, wb, defects, base, 1, 2, 1, 2, procs)
+
+    fbw = {}
+    trace_direction(ctx, defects, base, 12 if thorough else 4, 400 if thorough else 150, fbw)
+    for f in fbw.values():
+        f.report()
+
+    ctx.assumptions += [
+        'pictures are flat per region (zone relative to one coverage geometry x content area); anti-aliased edges of the '
+        'clip mask (pixels within 1.5 px of a coverage edge) are not compared',
+        'PNG output with globals.image.paletted false; palette quantisation and JPEG loss are outside the comparison; '
+        'paletted and colour-keyed INPUTS are covered',
+        'colour tolerance is %d/255 for opaque pixels and scaled by 255/alpha for translucent ones (8-bit alpha rounding)' % TOL,
+        'the synthetic upstream composes several LAYERS bottom-to-top over a transparent or white background',
+        'authorisation (limited_to clipping, pruning before authorisation) belongs to C10; no attribution / error images',
+        'sources share SRS, format and supported_srs; reprojection and resampling are not part of this check',
+    ]
+    return ctx.finish('model_checking',
+                      'TLC: Compose.tla exhaustively over the catalogue stacks x request options; distinct = distinct (world, '
+                      'stack, options) requests executed on the real WMS service and compared with the model and with the '
+                      'full composition, plus distinct recorded requests of random worlds validated by Trace_Compose')
+
+
+def replay(ctx, data):
+    case = data.get('case') or {}
+    if 'world' not in case:
+        print('replay: no case stored')
+        return 0
+    world = World.from_json(case['world'])
+    names, o = case['names'], case['o']
+    base = ctx.sub('real')
+    ob = run_real(world, [(names, o)], base, procs=1)[0]
+    # the model needs the catalogue only through the names of the case
+    exp = expected_table(ctx, 'replay', world, [(names, o)], case.get('defects', []))[0]
+    prop_ok, bind_ok, text = judge(ob, exp)
+    print('replay %s on world %s' % (describe(names, o), world.name))
+    print('  upstream (real):  %s' % [(','.join(u['ls']), u['tr'], u['sub']) for u in ob['ups']])
+    print('  upstream (model): %s' % [(','.join(u['ls']), u['tr'], u['sub']) for u in exp['ups']])
+    for r in sorted(exp['full']):
+        print('  %-6s real %-22s model %-22s full %s' % (r, tuple(ob['px'].get(r, ())), tuple(exp['out'][r]), tuple(exp['full'][r])))
+    print('  property (real = full composition): %s; binding (real = model with Defects=%s): %s  %s' % (
+        'holds' if prop_ok else 'VIOLATED', case.get('defects', []), 'ok' if bind_ok else 'diverges', text))
+    shutil.rmtree(ctx.workdir, ignore_errors=True)
+    return 0 if prop_ok else 1
